@@ -67,28 +67,32 @@ NCASES = {"quick": 420, "thorough": 6000}
 MAXHIST = {"quick": 6, "thorough": 20}
 MAXFULL = {"quick": 8, "thorough": 5}       # events per case judged with the mp/quadrature oracles
 FLOORS = {
+    # calibrated on seeds 0-4 (unchanged tree and tree with the two proposed fixes): each
+    # floor is ~0.6 x the smallest count seen; class counts are cases carrying the label
     "quick": {"distinct_nontrivial": 300,
               "mon": {"invariant_evaluations": 1200, "fresh_equivalence": 1000,
                       "monotone_arrays": 3000, "origin_checks": 1000, "cache_checks": 1000,
                       "centre_slope": 600, "oracle_selfcheck": 900,
-                      "jacobian_mp_points": 40000, "jacobian_mpdiff_points": 2000,
-                      "ftc_intervals": 40000, "round_trip_points": 60000,
-                      "rejected_calls": 20},
-              "cls": {"g3": 200, "g1": 80, "Uniform": 120, "Spectral": 120,
-                      "event:eom": 40, "event:pos": 300, "event:mom": 150,
-                      "tail-near-bound": 60, "tail-long": 60, "a-small": 40,
-                      "smoothing-small": 40, "hist:4+": 60, "hist:0": 20}},
+                      "jacobian_mp_points": 50000, "jacobian_mpdiff_points": 2500,
+                      "ftc_intervals": 50000, "round_trip_points": 80000,
+                      "rejected_calls": 60},
+              "cls": {"g3": 200, "g1": 70, "Uniform": 120, "Spectral": 120,
+                      "event:eom": 60, "event:pos": 170, "event:mom": 120,
+                      "event:rejected": 50, "tail-near-bound": 90, "tail-long": 60,
+                      "a-small": 25, "a-large": 60, "smoothing-small": 45,
+                      "centre-far": 60, "hist:4+": 90, "hist:0": 30}},
     "thorough": {"distinct_nontrivial": 5000,
-                 "mon": {"invariant_evaluations": 50000, "fresh_equivalence": 45000,
-                         "monotone_arrays": 150000, "origin_checks": 50000,
-                         "cache_checks": 50000, "centre_slope": 12000,
-                         "oracle_selfcheck": 17000, "jacobian_mp_points": 800000,
-                         "jacobian_mpdiff_points": 40000, "ftc_intervals": 800000,
-                         "round_trip_points": 1200000, "rejected_calls": 1000},
-                 "cls": {"g3": 3500, "g1": 1400, "Uniform": 2400, "Spectral": 2400,
-                         "event:eom": 1500, "event:pos": 4000, "event:mom": 3000,
-                         "tail-near-bound": 1500, "tail-long": 1500, "a-small": 1000,
-                         "smoothing-small": 1000, "hist:4+": 3000, "hist:0": 200}},
+                 "mon": {"invariant_evaluations": 40000, "fresh_equivalence": 36000,
+                         "monotone_arrays": 100000, "origin_checks": 36000,
+                         "cache_checks": 36000, "centre_slope": 10000,
+                         "oracle_selfcheck": 14000, "jacobian_mp_points": 700000,
+                         "jacobian_mpdiff_points": 40000, "ftc_intervals": 700000,
+                         "round_trip_points": 1000000, "rejected_calls": 3000},
+                 "cls": {"g3": 3000, "g1": 1000, "Uniform": 1800, "Spectral": 1800,
+                         "event:eom": 1500, "event:pos": 2500, "event:mom": 2500,
+                         "event:rejected": 1500, "tail-near-bound": 1500, "tail-long": 1200,
+                         "a-small": 400, "a-large": 900, "smoothing-small": 700,
+                         "centre-far": 900, "hist:4+": 2000, "hist:0": 300}},
 }
 
 
@@ -347,6 +351,8 @@ def run_case(case):
                   "ftc_rel_mismatch"):
             if k in c.obs:
                 obs[k] = max(obs.get(k, 0.0), c.obs[k])
+        if "endpoints" in c.obs:
+            obs["endpoints_-1_+1(z,z,pz,pz,pp)"] = c.obs["endpoints"]
         if "model_mismatch" in c.obs:
             obs.setdefault("model_mismatch", c.obs["model_mismatch"])
         if c.raised is None and c.sh is not None:
